@@ -275,3 +275,35 @@ Proof.
   intros He Hl. unfold rt_abs. cbn [main lo orem]. rewrite He, Hl.
   rewrite (left_id_L ∅ (∪)), (right_id_L ∅ (∪)). reflexivity.
 Qed.
+
+(* ------------------------------------------------------------------ in-place overwrite *)
+
+Lemma replace_list_keys e' l : map ek (replace_list e' l) = map ek l.
+Proof.
+  unfold replace_list. induction l as [|x l IH]; [reflexivity|]. cbn [List.map map].
+  rewrite IH. destruct (N.eqb_spec (ek x) (ek e')) as [->|]; reflexivity.
+Qed.
+
+Lemma replace_list_length e' l : length (replace_list e' l) = length l.
+Proof. unfold replace_list. apply List.map_length. Qed.
+
+Lemma replace_list_elem e' l x : x ∈ replace_list e' l -> ek x ∈ map ek l.
+Proof.
+  intros H. rewrite <- (replace_list_keys e' l). apply elem_of_list_fmap. exists x. auto.
+Qed.
+
+Lemma list_to_emap_replace e' l :
+  ek e' ∈ map ek l -> list_to_emap (replace_list e' l) = <[ek e' := e']> (list_to_emap l).
+Proof.
+  induction l as [|x l IH]; intros Hin; [inversion Hin|].
+  unfold replace_list in *. cbn [List.map]. rewrite !list_to_emap_cons.
+  destruct (N.eqb_spec (ek x) (ek e')) as [Heq|Hne].
+  - rewrite Heq. rewrite insert_insert.
+    destruct (decide (ek e' ∈ map ek l)) as [Hin'|Hnin].
+    + rewrite IH by exact Hin'. rewrite insert_insert. reflexivity.
+    + f_equal. clear IH Hin. induction l as [|y l IHl]; [reflexivity|].
+      cbn [List.map]. cbn [map] in Hnin. apply not_elem_of_cons in Hnin as [Hy Hnin].
+      destruct (N.eqb_spec (ek y) (ek e')); [congruence|]. rewrite !list_to_emap_cons. f_equal. apply IHl. exact Hnin.
+  - cbn [map] in Hin. apply elem_of_cons in Hin as [Hin|Hin]; [congruence|].
+    rewrite IH by exact Hin. rewrite insert_commute by congruence. reflexivity.
+Qed.
